@@ -116,6 +116,11 @@ struct Case {
 }
 
 impl Case {
+    /// region of known finding `macro_fallback_shared_scratch_files`: the generation creates
+    /// scratch files with generation-independent names in the cwd / build dir
+    fn fallback_region(&self) -> bool {
+        self.pre.iter().any(|f| f.starts_with("--clang-macro-fallback"))
+    }
     fn flags(&self) -> Vec<String> {
         let mut v = vec![self.header.to_string_lossy().into_owned()];
         v.extend(self.pre.iter().cloned());
@@ -453,7 +458,7 @@ fn main() {
     let mut repo = repo_cases();
     let n_repo_total = repo.len();
     // always-in headers that exercise the classified sites
-    let must = ["abi-override.h", "wrap-static-fns.h", "opaque-tracing.hpp", "template.hpp", "macro-redef.h", "derive-hash-blocklisting.hpp",
+    let must = ["issue-753.h", "abi-override.h", "wrap-static-fns.h", "opaque-tracing.hpp", "template.hpp", "macro-redef.h", "derive-hash-blocklisting.hpp",
                 "replaces_double.hpp", "issue-1443.hpp", "enum.h", "bitfield_align.h", "class.hpp", "anon_union.hpp", "nsStyleAutoArray.hpp"];
     if n_repo < repo.len() {
         let mut chosen: Vec<Case> = vec![];
@@ -481,7 +486,6 @@ fn main() {
     probe_inproc(&mut cases, &work.0);
     let n_inproc_rejected = cases.iter().filter(|c| !c.inproc_ok).count();
     for c in cases.iter().filter(|c| !c.inproc_ok) { eprintln!("inproc-rejected {} {:?}", c.name, c.pre); }
-    let inproc: Vec<usize> = (0..cases.len()).filter(|&i| cases[i].inproc_ok).collect();
 
     let mut failures: Vec<Failure> = vec![];
     let mut phase_t: Vec<(String, f64)> = vec![("pool".into(), t0.elapsed().as_secs_f64())];
@@ -497,7 +501,11 @@ fn main() {
     };
     // the first dozen sequentially on the main thread (nothing else running), the rest in parallel;
     // phase (iv) cross-checks baselines against fresh CLI processes
-    let n_seq_base = cases.len().min(12);
+    // cases in the fallback region never run concurrently with anything in the normal phases
+    cases.sort_by_key(|c| !c.fallback_region());
+    let n_region = cases.iter().filter(|c| c.fallback_region()).count();
+    let inproc: Vec<usize> = (0..cases.len()).filter(|&i| cases[i].inproc_ok).collect();
+    let n_seq_base = cases.len().min(12.max(n_region));
     let mut base: Vec<Option<(Outcome, Outcome)>> = cases[..n_seq_base].iter().map(|c| mk_base(c)).collect();
     base.extend(par_map(&cases[n_seq_base..], pool_threads, |_, c| mk_base(c)));
     evals += 2 * inproc.len();
@@ -526,12 +534,16 @@ fn main() {
             jobs.push((ci, seed, s % 2 == 0));
         }
     }
-    let res = par_map(&jobs, pool_threads, |_, &(ci, seed, with_cb)| {
+    let seed_job = |&(ci, seed, with_cb): &(usize, usize, bool)| {
         let o = run_inproc(&cases[ci], Some(seed), with_cb, 1).remove(0);
         let b = base[ci].as_ref().unwrap();
         let want = if with_cb { &b.1 } else { &b.0 };
         if &o != want { Some(diff_outcomes(want, &o)) } else { None }
-    });
+    };
+    jobs.sort_by_key(|j| !cases[j.0].fallback_region());
+    let n_region_jobs = jobs.iter().filter(|j| cases[j.0].fallback_region()).count();
+    let mut res: Vec<Option<String>> = jobs[..n_region_jobs].iter().map(|j| seed_job(j)).collect();
+    res.extend(par_map(&jobs[n_region_jobs..], pool_threads, |_, j| seed_job(j)));
     evals += jobs.len();
     let mut seed_diffs = 0usize;
     for (j, d) in jobs.iter().zip(res) {
@@ -564,17 +576,21 @@ fn main() {
     // ---- phase (ii): histories.  All histories are planned from the PRNG first; the first
     // `n_hist_alone` run on the main thread with nothing else going on in the process, the others
     // in 4 lanes side by side (each lane is itself a longer history interleaved with the others).
+    let conc: Vec<usize> = inproc.iter().copied().filter(|&i| !cases[i].fallback_region()).collect();
     let mut hist_lens: Vec<usize> = vec![];
     type HStep = (usize, Option<usize>, bool, usize);
     let mut plans: Vec<Vec<HStep>> = vec![];
-    for _ in 0..n_hist {
-        if inproc.is_empty() { break; }
-        let target = *r.pick(&inproc);
+    let n_hist_alone = n_hist.min(if thorough { 30 } else { 8 });
+    for h in 0..n_hist {
+        if conc.is_empty() { break; }
+        // histories that run alone may contain fallback-region cases, the lanes may not
+        let inproc = if h < n_hist_alone { &inproc } else { &conc };
+        let target = *r.pick(inproc);
         let len = r.range(1, max_hist as u64) as usize;
         hist_lens.push(len);
         let mut seq = vec![];
         for _ in 0..len {
-            let ci = if r.chance(1, 2) { target } else { *r.pick(&inproc) };
+            let ci = if r.chance(1, 2) { target } else { *r.pick(inproc) };
             let seeded = r.chance(1, 4);
             let with_cb = r.chance(1, 2);
             let repeats = if r.chance(1, 5) { 3 } else { 1 };
@@ -599,7 +615,7 @@ fn main() {
         }
         (gens, None)
     };
-    let n_hist_alone = plans.len().min(if thorough { 30 } else { 8 });
+    let n_hist_alone = plans.len().min(n_hist_alone);
     let mut hist_gens = 0usize;
     let mut hres: Vec<(usize, Option<Failure>)> = plans[..n_hist_alone].iter().enumerate().map(|(h, p)| run_history(h, p)).collect();
     hres.extend(par_map(&plans[n_hist_alone..], 4, |h, p| run_history(n_hist_alone + h, p)));
@@ -614,13 +630,14 @@ fn main() {
     let mut thread_counts: Vec<usize> = vec![];
     let mut thread_gens = 0usize;
     for round in 0..n_thread_rounds {
-        if inproc.is_empty() { break; }
+        if conc.is_empty() { break; }
+        let inproc = &conc;
         let t = r.range(2, max_threads as u64) as usize;
         thread_counts.push(t);
         let same = round % 2 == 0;
-        let shared = *r.pick(&inproc);
+        let shared = *r.pick(inproc);
         let plan: Vec<Vec<(usize, Option<usize>, bool)>> = (0..t).map(|_| (0..gens_per_thread).map(|_| {
-            let ci = if same { shared } else { *r.pick(&inproc) };
+            let ci = if same { shared } else { *r.pick(inproc) };
             (ci, if r.chance(1, 3) { Some((r.next() as usize) | 1) } else { None }, r.chance(1, 2))
         }).collect()).collect();
         let order = AtomicUsize::new(0);
@@ -660,6 +677,26 @@ fn main() {
     }
     evals += thread_gens;
 
+    // ---- probe of known finding macro_fallback_shared_scratch_files: concurrent generations
+    // with --clang-macro-fallback share `.macro_eval.c` / `-precompile.h.pch` in the cwd
+    let fb_dir = work.path("fallback_cwd");
+    std::fs::create_dir_all(&fb_dir).unwrap();
+    let fb_h = fb_dir.join("fb.h");
+    std::fs::write(&fb_h, "#define U32(c) c ## U\n#define FB_A U32(5)\n#define FB_B U32(6)\n#define FB_C U32(6 << 8)\n#define FB_D (FB_A + U32(1))\n").unwrap();
+    let fb = Case { name: "fallback-probe fb.h".into(), header: fb_h.clone(), text: None,
+        pre: ["--clang-macro-fallback", "--clang-macro-fallback-build-dir", fb_dir.to_str().unwrap(), "--formatter", "none", "--no-include-path-detection"].iter().map(|s| s.to_string()).collect(),
+        clang: vec![], has_static_fns: false, inproc_ok: true };
+    let fb_base = run_inproc(&fb, None, false, 1).remove(0);
+    let fb_seq_same = (0..5).all(|_| run_inproc(&fb, None, false, 1).remove(0) == fb_base);
+    let fb_jobs: Vec<usize> = (0..(if thorough { 160 } else { 48 })).collect();
+    let fb_res = par_map(&fb_jobs, 8, |_, _| run_inproc(&fb, None, false, 1).remove(0));
+    let fb_thread_diffs: Vec<&Outcome> = fb_res.iter().filter(|o| **o != fb_base).collect();
+    let fb_consts = |o: &Outcome| o.text.matches("pub const FB_").count();
+    // prediction of the model (C11_scratch_file_interleaving_witness): a generation reads another
+    // one's file or finds it deleted => it loses macro constants or fails; nothing else changes
+    let fb_as_predicted = fb_thread_diffs.iter().all(|o| o.kind != "ok" || fb_consts(o) < fb_consts(&fb_base));
+    let fb_example = fb_thread_diffs.first().map(|o| format!("{} with {} of {} constants", o.kind, fb_consts(o), fb_consts(&fb_base))).unwrap_or_default();
+    evals += 6 + fb_jobs.len();
     phase_t.push(("threads".into(), t0.elapsed().as_secs_f64()));
     // ---- phase (iv): separate processes (CLI), with side outputs; CLI seeds
     let mut cli_idx: Vec<usize> = (0..cases.len()).collect();
@@ -750,6 +787,9 @@ fn main() {
     kv(&mut j, "hash_seed_runs", jobs.len().to_string());
     kv(&mut j, "hash_seed_differences", seed_diffs.to_string());
     kv(&mut j, "seed_hook_sensitivity_probe", format!("{{\"input\":\"void conflicted(void); with three --override-abi sets of different ABIs matching it\",\"distinct_outputs_over_40_seeds\":{},\"unseeded_runs_identical\":{}}}", probe_outs.len(), probe_unseeded.windows(2).all(|w| w[0] == w[1])));
+    kv(&mut j, "fallback_region_cases", n_region.to_string());
+    kv(&mut j, "macro_fallback_probe", format!("{{\"baseline_constants\":{},\"sequential_repeats_identical\":{},\"concurrent_runs\":{},\"concurrent_differences\":{},\"differences_as_model_predicts\":{},\"example\":{}}}",
+        fb_consts(&fb_base), fb_seq_same, fb_jobs.len(), fb_thread_diffs.len(), fb_as_predicted, json_str(&fb_example)));
     kv(&mut j, "histories", hist_lens.len().to_string());
     kv(&mut j, "histories_run_alone_on_main_thread", n_hist_alone.to_string());
     kv(&mut j, "history_length_max", hist_lens.iter().max().copied().unwrap_or(0).to_string());
